@@ -77,7 +77,11 @@ class SymCtx:
         self.ex.assume(cond)
 
     # ---- the deciding step
-    def check(self, label, cond, msg=""):
+    def record(self, name, value):
+        """a JSON-able constant that belongs to the counterexample (e.g. a thread schedule)"""
+        self.inputs[name] = ("const", value)
+
+    def check(self, label, cond, msg="", decided_by_solver=False):
         if msg:
             self.msgs[label] = str(msg)[:300]
         if isinstance(cond, SymInt):
@@ -103,7 +107,7 @@ class SymCtx:
             return True
         if cond:
             # concretely true on this path; the path itself exists only because the solver found it feasible
-            self.results.append((label, "discharged", "solver" if self.ex.decisions else None))
+            self.results.append((label, "discharged", "solver" if (self.ex.decisions or decided_by_solver) else None))
             return True
         inp = self._extract(self.ex.model)
         self.results.append((label, "violated" if inp is not None else "unknown", inp))
@@ -376,7 +380,7 @@ def run_obligations(obs, deviations_for=None, canary_for=None, seed=0, workers=N
     results = {}
     ctxm = mp.get_context("fork")
     pending = []
-    with ctxm.Pool(workers, maxtasksperchild=50) as pool:
+    with ctxm.Pool(workers, maxtasksperchild=1) as pool:  # a fresh fork per task: no state leaks between obligations
         def submit(ob, roots, cap):
             t = (ob, roots, deviations_for.get(ob.name, ()), canary_for.get(ob.name), seed, solver_timeout_ms, cap)
             pending.append((ob, pool.apply_async(_run_ob, (t,))))
